@@ -62,3 +62,30 @@ def rand_history(rng, nops=None, v3=None):
     hs = [rand_reply(rng, True) for _ in range(14)]
     data = [rand_reply(rng, False) for _ in range(24)]
     return conns, hs, data, ops
+
+
+def late_hs_histories(rng, n):
+    """V3 histories in which genuine handshake replies arrive LATER than the 2 s read timeout (after the attempt - or all
+    attempts - gave up), followed by a pause and exchanges with a promptly answering device. Exercises the flush of the
+    receive queue before a handshake and the recovery after a timed-out authentication."""
+    out = []
+    late = [2001, 2499, 3101, 4501, 6499]       # never a whole multiple of the timeout / of the 1 s pause after authentication: no ties
+    for _ in range(n):
+        k = rng.choice([1, 1, 2, 3])                      # how many handshakes are answered late
+        d = [rng.choice(late) for _ in range(k)]
+        pause = rng.choice([607, 1503, 3011, 7001])
+        f, g = rng.randrange(1, 200), rng.randrange(1, 200)
+        prompt_hs = [[(0, 1, 0)]] * 8
+        data = [[(0, 0, rng.randrange(1, 250))] for _ in range(8)]
+        shape = rng.randrange(3)
+        if shape == 0:      # explicit authentication that times out, pause, then exchanges
+            ops = [(2, 1, rng.choice([1, 2, 3])), (5, pause, 0), (1, f, 3), (1, g, 3)]
+            hs = [[(x, 1, 0)] for x in d] + prompt_hs
+        elif shape == 1:    # authenticated, 12 h later the implicit re-authentication of a send is answered late
+            ops = [(2, 1, 3), (5, H12 + 1000, 0), (1, f, 3), (5, pause, 0), (1, g, 3), (1, f, 3)]
+            hs = [[(0, 1, 0)]] + [[(x, 1, 0)] for x in d] + prompt_hs
+        else:               # device-level calls
+            ops = [(4, 1, 0), (5, H12 + 1000, 0), (3, f, 0), (5, pause, 0), (3, g, 0), (3, f, 0)]
+            hs = [[(0, 1, 0)]] + [[(x, 1, 0)] for x in d] + prompt_hs
+        out.append(([0] * 8, hs, data, ops))
+    return out
